@@ -5,7 +5,8 @@ W = "hypercorn.app_wrappers:WSGIWrapper"
 # what the server puts on the application queue for an http scope: {"type": "http.request", "body": bytes, "more_body": bool} / http.disconnect
 RECV = "callable{record:received;returns:msg(body:payload=bytes;more_body:short=bool)}"
 SEND = "callable{record:asgi_sent}"
-SPAWN = "callable{record:spawned_sync}"
+# sync_spawn runs the WSGI application in a thread and re-raises what it raised
+SPAWN = "callable{record:spawned_sync;raises:Exception;yields:1}"
 SCOPE = "dict{type:str;path:str;root_path:str;method:str;query_string:bstr;http_version:str;scheme:str;headers:hdrs;server:opt tuple(str;int);client:opt tuple(str;int)}"
 
 cls(W, fields={"app": "obj pyvc:WSGIApp", "max_body_size": "int"}, immutable=["app", "max_body_size"])
@@ -24,6 +25,11 @@ fn(W + ".__call__", params={"scope": SCOPE, "receive": RECV, "send": SEND, "sync
 fn(W + ".handle_http", params={"scope": SCOPE, "receive": RECV, "send": SEND, "sync_spawn": SPAWN, "call_soon": "opaque"},
    requires=[("http.pre.ascii", "is_ascii(scope['query_string']) and is_ascii(scope['root_path']) and is_ascii(scope['path'])")],
    loops={0: {"locals": {"message": "msg(body:payload=bytes;more_body:short=bool)", "body": "bytes"}}},
+   # C05 "never bytes that parse as a complete response": when the application (its iterable) fails,
+   # the failure is passed on -- the caller answers 500 or cuts the response short -- and this
+   # function itself sends nothing more, in particular not the final empty body that would
+   # complete the response
+   raises={"Exception": {"ensures": [("C05.wsgi.no-final-body-on-error", "n_after_gap('asgi_sent') == 0", "C05,C17")]}},
    ensures=[
        # C17.once: the application is reached at most once, only through sync_spawn(self.run_app, ...) (off the event loop)
        ("C17.once", "n_after_gap('spawned_sync') <= 1 and trace_all('spawned_sync', 's', is_method_of(s[0], self, 'run_app'))", "C17"),
@@ -213,4 +219,53 @@ fn("hypercorn.utils:wrap_app", params={"app": "opaque", "wsgi_max_body_size": "i
        ("C17.wrap.asgi", "implies(mode == 'asgi', isinstance(result, ASGIWrapper) and same(result.app, app))", "C17,C01"),
        ("C17.wrap.detected", "implies(mode is None, same(result.app, app) and implies(isinstance(result, WSGIWrapper), result.max_body_size == wsgi_max_body_size))", "C17"),
    ],
+   props=("C17",))
+
+
+# utils.is_asgi decides, when no mode is given, whether an application is called as ASGI (a
+# coroutine function, or an object whose __call__ is one) or as WSGI (anything else, called in a
+# thread with (environ, start_response)).  C17 "a WSGI application is called ... off the event
+# loop, with an environ": a synchronous callable is WSGI however it is decorated -- what counts is
+# how *it* is called, not what it wraps.  Symbolically the answer of inspect.iscoroutinefunction is
+# not modelled (either); the executable statement below is used when the unit leaves the subset.
+def _is_asgi_args(rng):
+    import functools
+
+    async def coro_app(scope, receive, send):
+        pass
+
+    def wsgi_app(environ, start_response):
+        return []
+
+    class AsyncCallable:
+        async def __call__(self, scope, receive, send):
+            pass
+
+    class SyncCallable:
+        def __call__(self, environ, start_response):
+            return []
+
+    @functools.wraps(coro_app)
+    def sync_wrapper_of_coroutine(environ, start_response):  # a WSGI adapter around an async handler
+        return []
+
+    @functools.wraps(wsgi_app)
+    async def async_wrapper_of_function(scope, receive, send):
+        pass
+
+    class SyncCallableWrapping:
+        __wrapped__ = coro_app
+
+        def __call__(self, environ, start_response):
+            return []
+
+    apps = [(coro_app, True), (wsgi_app, False), (AsyncCallable(), True), (SyncCallable(), False), (sync_wrapper_of_coroutine, False),
+            (async_wrapper_of_function, True), (SyncCallableWrapping(), False), (functools.partial(wsgi_app), False), (42, False)]
+    app, want = rng.choice(apps)
+    return {"app": app, "_want": want}
+
+
+fn("hypercorn.utils:is_asgi", params={"app": "opaque"}, returns="bool", modifies=[], effect="atomic",
+   model_opts={"native_args": _is_asgi_args, "native_oracle": lambda args, result, exc=None: exc is None and result == args["_want"],
+               "native_oracle_name": "C17.is_asgi.by-calling-convention (native oracle)"},
    props=("C17",))
